@@ -70,7 +70,7 @@ pub fn lifetime(kind: Kind) -> impl Strategy<Value = History> {
                     if !*present && oi == 0 {
                         continue;
                     }
-                    dets.push(DetSpec { obj: oi, t, jx: *jx, jy: *jy, js: 0.0, conf: 1.0, has_feat: *has_feat, feat_var: var.wrapping_add(oi as u8 * 17), quality: if qmode == 5 && k % 11 == 0 { None } else { Some(quality) } });
+                    dets.push(DetSpec { obj: oi, t, jx: *jx, jy: *jy, js: 0.0, conf: 1.0, has_feat: *has_feat, feat_var: var.wrapping_add(oi as u8 * 17), quality: if qmode == 5 && k % 11 == 0 { None } else { Some(quality) }, part: (1.0, 0.0) });
                 }
                 ops.push(Op::Predict { scene: 0, dets });
             }
